@@ -9,10 +9,14 @@ import (
 	"errors"
 	"fmt"
 	"io"
+	"net"
 	"net/http"
+	"net/url"
+	"os"
 	"reflect"
 	"strconv"
 	"strings"
+	"syscall"
 	"testing"
 
 	"pgregory.net/rapid"
@@ -23,7 +27,7 @@ import (
 	"github.com/flamego/flamego/verifharness/internal/rt"
 )
 
-const rule = "case = one handler of a supported return shape (string, []byte, error (from func() and from func(Context)), *string, *[]byte, named string, named []byte, any holding a string / a byte slice / an error, (named int, string), (int,string), (int,[]byte), (int,error), (string,error), ([]byte,error); func() (int,string) both as the auto-wrapped fast path and as a named func type invoked reflectively) optionally flushing, sending a status line, writing itself, cancelling its request, calling Next() or registering a before-function that serves a nested request first and then returning generated values (arbitrary bytes, occasionally 0.5..70 KB of them, empty, nil, nil/non-nil errors of 6 concrete types incl. one with an empty message and two whose dynamic value is the zero value of its type, status 100..999), placed as middleware, group handler, route handler or action, followed by a marker handler; optionally a custom ReturnHandler mapped at application or request scope. " +
+const rule = "case = one handler of a supported return shape (string, []byte, error (from func() and from func(Context)), *string, *[]byte, named string, named []byte, any holding a string / a byte slice / an error, (named int, string), (int,string), (int,[]byte), (int,error), (string,error), ([]byte,error); func() (int,string) both as the auto-wrapped fast path and as a named func type invoked reflectively) optionally flushing, sending a status line, writing itself, cancelling its request, calling Next() or registering a before-function that serves a nested request first and then returning generated values (arbitrary bytes, occasionally 0.5..70 KB of them, empty, nil, nil/non-nil errors of 6 concrete types incl. one with an empty message and two whose dynamic value is the zero value of its type, and 24 well-known error values of the standard library (context.Canceled, io.EOF, http.ErrAbortHandler, EPIPE, ...) as they are or wrapped, status 100..999), placed as middleware, group handler, route handler or action, followed by a marker handler; optionally a custom ReturnHandler mapped at application or request scope. " +
 	"Oracle: an own table (status, body, chain continues?) checked on a spy writer (with or without a WriteString method; after the handler's own output, if any: the returned values are rendered all the same), 'marker ran <=> nothing was written', fast path == reflective path, and a custom ReturnHandler receives exactly the returned values while the table is not applied. " +
 	"non-trivial = empty / nil / zero results, a nil error in a pair, a pointer or interface result, a non-200 status, a position other than the route handler, or a custom ReturnHandler; distinct by case text"
 
@@ -40,7 +44,11 @@ type Case struct {
 	Shape  string `json:"shape"`
 	S      string `json:"s"`      // strconv.Quote form of the string / bytes value
 	Nil    bool   `json:"nil"`    // []byte / *string / any is nil
-	Err    string `json:"err"`    // "", nil, new, custom, wrapped, emptymsg
+	Err    string `json:"err"`    // "", nil, new, custom, wrapped, emptymsg, zerostruct, zerostring, std, stdwrapped
+	// Std (err = std | stdwrapped): which well-known error value of the standard
+	// library the handler returns (as it is, or wrapped with %w): what an outbound
+	// call, a file or a decoder hands back while the request itself is alive
+	Std int `json:"std_error,omitempty"`
 	Code   int    `json:"code"`   // for (int, x)
 	Pos    string `json:"pos"`    // use | group | route | action
 	Custom string `json:"custom"` // "", app, request
@@ -96,8 +104,25 @@ func (c Case) err() error {
 		return zeroStructErr{}
 	case "zerostring":
 		return stringErr("")
+	case "std":
+		return stdErrors[c.Std%len(stdErrors)]
+	case "stdwrapped":
+		return fmt.Errorf("fetch %s: %w", c.str(), stdErrors[c.Std%len(stdErrors)])
 	}
 	return nil
+}
+
+// stdErrors are error values of the standard library that code likes to
+// treat specially; returned by a handler they are errors like any other.
+var stdErrors = []error{
+	gocontext.Canceled, gocontext.DeadlineExceeded, io.EOF, io.ErrUnexpectedEOF, io.ErrClosedPipe, io.ErrShortWrite,
+	http.ErrAbortHandler, http.ErrHandlerTimeout, http.ErrBodyNotAllowed, http.ErrNotSupported, http.ErrNoCookie, http.ErrServerClosed,
+	os.ErrNotExist, os.ErrPermission, os.ErrDeadlineExceeded, os.ErrClosed, net.ErrClosed,
+	syscall.EPIPE, syscall.ECONNRESET, syscall.ENOENT,
+	&net.OpError{Op: "write", Net: "tcp", Err: syscall.EPIPE},
+	&os.PathError{Op: "open", Path: "/x", Err: syscall.ENOENT},
+	&url.Error{Op: "Get", URL: "http://upstream/", Err: gocontext.Canceled},
+	errors.Join(errors.New("a"), gocontext.Canceled),
 }
 
 // handler builds the handler and the values it returns.
@@ -556,7 +581,10 @@ func genCase(t *rapid.T) Case {
 	}
 	c.S = strconv.QuoteToASCII(gen.Big(t, s))
 	c.Nil = rapid.IntRange(0, 3).Draw(t, "nil") == 0
-	c.Err = []string{"nil", "nil", "new", "custom", "wrapped", "emptymsg", "zerostruct", "zerostring"}[rapid.IntRange(0, 7).Draw(t, "err")]
+	c.Err = []string{"nil", "nil", "new", "custom", "wrapped", "emptymsg", "zerostruct", "zerostring", "std", "stdwrapped"}[rapid.IntRange(0, 9).Draw(t, "err")]
+	if c.Err == "std" || c.Err == "stdwrapped" {
+		c.Std = rapid.IntRange(0, len(stdErrors)-1).Draw(t, "std")
+	}
 	if c.Own == "nested" {
 		// (the nested request must not come by the handler under test or a custom
 		// ReturnHandler itself)
